@@ -154,6 +154,8 @@ C["parse_spec_constant_op"] = ("r", """requires old(self).decoder.wf(), old(self
         r is Ok ==> (final(self).decoder.offset - old(self).decoder.offset == 4 * (old(self).decoder.limit->0 - final(self).decoder.limit->0)
             && final(self).decoder.offset > old(self).decoder.offset),
         r matches Ok(v) ==> (v@.len() >= 1 && v@[0] is LiteralSpecConstantOpInteger),
+        // C03: the embedded opcode number is the WHOLE first word: a word above 16 bits is not an opcode
+        r is Ok ==> decoder::le32(old(self).decoder.bytes@, old(self).decoder.offset as int) <= 0xffff,
         // C03/C02: the embedded opcode is a declared one and what follows it conforms to that opcode's row
         // (required operands present, an optional one possibly absent, a variadic one up to the last word)
         r matches Ok(v) ==> (v@[0] matches dr::Operand::LiteralSpecConstantOpInteger(op)
@@ -880,6 +882,20 @@ def witness(failure, ctx):
     for ver in (0x00000000, 0x00010000, 0x00010300, 0x00010600, 0x00010700, 0x00020000, 0x00ff0100):
         hv = seeds.HEADER[:1] + [ver] + seeds.HEADER[2:]
         cases.append(("c01-version-%x" % ver, seeds.to_hex_bytes(hv + seeds.inst(19, 1) + seeds.inst(21, 2, 32, 0))))
+    # C03: OpSpecConstantOp whose opcode word has high bits set (low half spells SNegate / IAdd) is not an opcode
+    cases.append(("c03-reject-specop-high-bits", seeds.to_hex_bytes(seeds.HEADER + seeds.inst(21, 4, 32, 1) + seeds.inst(52, 4, 13, 0x0002007e, 8))))
+    cases.append(("c03-reject-specop-high-bits-2", seeds.to_hex_bytes(seeds.HEADER + seeds.inst(21, 4, 32, 1) + seeds.inst(52, 4, 13, 0xffff0080, 8, 9))))
+    # C01/C02: strings with multi-byte characters (byte length and character count differ) come back byte for byte
+    for txt in ("\u00e9\u00e9", "\u00e9\u00e9\u00e9", "\u65e5\u672c\u8a9e\u3067", "ab\u00e9\u00e9\u00e9\u00e9\u00e9\u00e9", "x\U0001f600y\U0001f600"):
+        bs = list(txt.encode("utf-8")) + [0]
+        while len(bs) % 4:
+            bs.append(0)
+        ws = [int.from_bytes(bytes(bs[i:i + 4]), "little") for i in range(0, len(bs), 4)]
+        cases.append(("c01-utf8-%d" % len(txt.encode("utf-8")), seeds.to_hex_bytes(seeds.HEADER + seeds.inst(7, 40, *ws) + seeds.inst(5, 1, *ws) + seeds.inst(19, 1))))
+    # C10: any interleaving of declarations: the same scalar type declared twice under different ids
+    cases.append(("c10-duplicate-type-int64", seeds.to_hex_bytes(seeds.HEADER + seeds.inst(21, 1, 64, 0) + seeds.inst(21, 2, 64, 0) + seeds.inst(43, 2, 3, 5, 6) + seeds.inst(50, 1, 4, 7, 8))))
+    cases.append(("c10-duplicate-type-float64", seeds.to_hex_bytes(seeds.HEADER + seeds.inst(22, 1, 64) + seeds.inst(22, 2, 64) + seeds.inst(43, 2, 3, 5, 6))))
+    cases.append(("c03-reject-duplicate-type-int128", seeds.to_hex_bytes(seeds.HEADER + seeds.inst(21, 1, 128, 0) + seeds.inst(21, 2, 128, 0) + seeds.inst(43, 2, 3, 5))))
     # C10: a literal of an unknown type is ONE word: two literal words leave a surplus word (rejected), whatever the word count suggests
     cases.append(("c03-reject-const-unknown-type-two-words", seeds.to_hex_bytes(seeds.HEADER + seeds.inst(43, 1, 2, 7, 0))))
     cases.append(("c03-reject-const-type-declared-later-two-words", seeds.to_hex_bytes(seeds.HEADER + seeds.inst(43, 1, 2, 7, 0) + seeds.inst(21, 1, 64, 0))))
